@@ -269,6 +269,20 @@ def rule_delegation(repo, rule):
                         allowed = set(good)
                         if identity_on(ensfi, ep, kinds[k]):
                             allowed.add("%s.lc" % p)
+                        # what the converter's result carries in .lc for this kind: `Cls(W, False)` wraps the wire W as it
+                        # is, so W - and, W being ConstVal(E), the plain number E (the LinComb assertions convert constants
+                        # themselves) - is the same operand at the same scale
+                        from ..bykind import returns_by_kind
+                        from ..flatten import _Subst
+                        from ..loader import clone as _clone
+                        for _r, e in returns_by_kind(ensfi, ep, {"k": kinds[k]}, rebind=True)["k"]:
+                            if isinstance(e, ast.Call) and norm(e.func).split(".")[-1] in (cn, "cls") and len(e.args) == 2 \
+                                    and norm(e.args[1]) == "False" and not e.keywords:
+                                w_ = _Subst({ep: ast.Name(id=p, ctx=ast.Load())}).visit(_clone(e.args[0]))
+                                allowed.add(norm(w_))
+                                if isinstance(w_, ast.Call) and norm(w_.func).split(".")[-1] == "ConstVal" and len(w_.args) == 1:
+                                    allowed.add(norm(w_.args[0]))
+                                    allowed.add(norm(w_.args[0]).replace("cls.", "%s." % cn))
                         if not exprs or any(norm(e) not in allowed for e in exprs):
                             bad_kind = k
                             break
@@ -407,7 +421,7 @@ def rule_symmetry(repo, rule):
     ci = repo.cls(RT, "LinComb")
     for name, fi in sorted(assertion_methods(ci).items()):
         gad = gadget_calls(fi) or [c for c in ast.walk(fi.node) if isinstance(c, ast.Call) and (
-            norm(c.func).endswith("add_constraint") or (isinstance(c.func, ast.Attribute) and c.func.attr == "to_bits"))]
+            norm(c.func).split(".")[-1] in ("add_constraint", "add_constraint_unsafe") or (isinstance(c.func, ast.Attribute) and c.func.attr == "to_bits"))]
         if not gad:
             rule.undecided(fi.loc(), fi.fq, name, "no gadget call found")
             continue
@@ -415,15 +429,38 @@ def rule_symmetry(repo, rule):
         gn = {n for n in range(cfg.n) if cfg.stmt[n] is not None and any(
             c in gad for c in calls_in(own_stmt_part(cfg.stmt[n], cfg.kind[n])))}
         ok_all = True
+        alternatives = 0
+        none_at_all = cfg.exit in cfg.reach_avoiding(cfg.entry, set(gn))
         for g in sorted(gn):
-            others = gn - {g}
             reach = cfg.reach_avoiding(cfg.entry, {g})
-            if cfg.exit in reach:
+            if cfg.exit not in reach:
+                continue
+            # a completing path avoids this statement.  That is an alternative implementation when what decides between them is
+            # public structure (operand kinds, constant bounds, whether a guard is installed) and the other side enforces
+            # too; it is suppression when the deciding test is about error checking, the guard's value or a wire's value.
+            # deciding tests: branch points that lie on a completing path avoiding g and from which g is still reachable
+            def from_incl(a, avoid):
+                return set() if a in avoid else ({a} | cfg.reach_avoiding(a, avoid))
+            deciding = []
+            for n in reach | {cfg.entry}:
+                if cfg.kind[n] != "test":
+                    continue
+                succs = {b for b, lab in cfg.succ[n] if lab != "exc"}
+                can_avoid = any(cfg.exit in from_incl(b, {g}) for b in succs)
+                must_pass = any(g in from_incl(b, set()) and cfg.exit not in from_incl(b, {g}) for b in succs)
+                if can_avoid and must_pass:
+                    deciding.append(n)
+            toks = ("ignore_errors()", "is_guard()", ".value")
+            secret = [n for n in deciding if any(k in norm(cfg.stmt[n].test) for k in toks)]
+            if none_at_all or secret:
                 ok_all = False
                 rule.violation(fi.loc(cfg.stmt[g]), fi.fq, cfg.describe(g), "a completing path skips this in-circuit enforcement "
                                "(e.g. it is suppressed together with the run-time check)", "%s/skip/%s" % (fi.qual, norm(cfg.stmt[g])[:40]))
+            else:
+                alternatives += 1
         if ok_all:
-            rule.ok(fi.loc(), fi.fq, "%d enforcement statement(s) on every completing path" % len(gn))
+            rule.ok(fi.loc(), fi.fq, "%d enforcement statement(s); every completing path passes one%s" % (
+                len(gn), " (%d are alternatives chosen by public structure)" % alternatives if alternatives else ""))
         # the run-time checks are suppressible
         for t in raise_tests(fi):
             if ".value" not in norm(t.test):
@@ -492,14 +529,46 @@ def _ceval(n, env):
 
 
 
+def modulus_checks(un):
+    """[(call, name)]: gadget calls in `un` that enforce  <name> < self.mod  for a local <name>, however spelled:
+    name.assert_lt(self.mod), name.assert_le(self.mod - 1), (self.mod - 1 - name).assert_positive(w), ...  A width given to
+    assert_positive must be the packer's own bitlen() (every value of [0, mod) fits, so nothing honest is refused)."""
+    from ..relations import rel
+    from ..flatten import resolve_locals as _rl
+    out = []
+    M = P.sym("__mod__")
+    CMP = {"assert_lt": ast.Lt(), "assert_le": ast.LtE(), "assert_gt": ast.Gt(), "assert_ge": ast.GtE()}
+    for x in ast.walk(un.node):
+        if not (isinstance(x, ast.Call) and isinstance(x.func, ast.Attribute)):
+            continue
+        env = {"self.mod": M}
+        r = None
+        if x.func.attr in CMP and len(x.args) >= 1:
+            a, b = poly_of(x.func.value, env, strict=True), poly_of(x.args[0], env, strict=True)
+            if a is not None and b is not None:
+                r = rel(CMP[x.func.attr], a, b)
+        elif x.func.attr == "assert_positive":
+            wd = x.args[0] if x.args else next((k.value for k in x.keywords if k.arg == "bits"), None)
+            if wd is not None and norm(_rl(un.node, wd)) != "self.bitlen()":
+                continue
+            r = gadget_relation(x, env)
+        if r is None or r[0] != ">=0":
+            continue
+        names = [s for s in r[1].symbols() if s != "__mod__"]
+        if len(names) == 1 and r[1] == M - P.sym(names[0]) - 1:
+            out.append((x, names[0]))
+    return out
+
+
 def rule_pack_unpack(repo, r6):
     """secret bounded integers are range-checked on unpack (also used by C16)"""
     pk = repo.cls("pysnark.pack", "PackIntMod")
     un = pk.methods["unpack"]
-    c = [x for x in ast.walk(un.node) if isinstance(x, ast.Call) and isinstance(x.func, ast.Attribute) and x.func.attr == "assert_lt"]
-    if c and norm(c[0].args[0]) == "self.mod":
+    mc = modulus_checks(un)
+    c = [x for x, _nm in mc]
+    if c:
         rets = [n for n in ast.walk(un.node) if isinstance(n, ast.Return)]
-        recv = norm(c[0].func.value)
+        recv = mc[0][1]
         if any(norm(r.value) == recv for r in rets):
             r6.ok(un.loc(c[0]), un.fq, norm(c[0]), "the value returned is the value range-checked against the modulus")
         else:
@@ -515,6 +584,14 @@ def rule_pack_unpack(repo, r6):
                 gov.append((g.test, inbody))
             elif isinstance(g, (ast.For, ast.While, ast.Try, ast.With, ast.IfExp)):
                 gov.append((None, True))
+        # early returns ahead of the check skip it just as well
+        from ..loader import precedes
+        from ..flatten import resolve_locals as _rl
+        for g in ast.walk(un.node):
+            if isinstance(g, ast.If) and "isinstance" not in norm(g.test) and not any(c[0] is x for x in ast.walk(g)) \
+                    and not g.orelse and g.body and isinstance(g.body[-1], ast.Return) and precedes(un.node, g, c[0]):
+                gov.append((g.test, False))
+        gov = [(_rl(un.node, t) if t is not None else None, pol) for t, pol in gov]
         if gov:
             bl = pk.methods.get("bitlen")
             blret = [n.value for n in ast.walk(bl.node) if isinstance(n, ast.Return)] if bl is not None else []
@@ -543,7 +620,8 @@ def rule_pack_unpack(repo, r6):
             else:
                 r6.ok(un.loc(c[0]), un.fq, "assert_lt(self.mod) only if %s" % term, "evaluated for mod = 1..1099: skipped only when mod == 2^bitlen")
     else:
-        r6.violation(un.loc(), un.fq, norm(un.node.body)[:120], "secret value unpacked without `assert_lt(self.mod)`", "pack/none")
+        r6.violation(un.loc(), un.fq, norm(un.node.body)[:120], "secret value unpacked without a range check against self.mod "
+                     "(`assert_lt(self.mod)` or an equivalent comparison gadget)", "pack/none")
 
 
 def check(repo, rep, tier):
